@@ -150,7 +150,11 @@ def run_case(case, scratch):
                     fail("schema_valid_value_refused", f"{by}:{type(exc).__name__}",
                          f"{tname} built by {by}: {str(exc)[:200]} value={json.dumps(expected)[:200]}")
                     continue
-                dumped = inst.model_dump(mode="json", by_alias=True, exclude_unset=True)
+                try:
+                    dumped = type(inst).model_dump(inst, mode="json", by_alias=True, exclude_unset=True)
+                except Exception as exc:  # noqa: BLE001  (e.g. a field shadowing a BaseModel method)
+                    fail("round_trip", by + ":raised", f"{tname} by {by}: serialising the instance raised {exc!r}")
+                    continue
                 if not values_equal(dumped, expected):
                     fail("round_trip", by, f"{tname} by {by}: dump {json.dumps(dumped)[:200]} != value {json.dumps(expected)[:200]}")
             if isinstance(expected, dict) and (len(expected) >= 2 or any(isinstance(v, (dict, list)) for v in expected.values())):
